@@ -66,6 +66,9 @@ func ruleDrains(c *Ctx) {
 	for _, fn := range []string{"(*Conn).handleData"} {
 		if f := c.A.Func(fn); f != nil {
 			c.obNever("no line read after 354", f, c.direct("reply:354"), lineReads, nil, nil)
+			// ... and the message the client sends in answer to 354 is consumed by this handler: a refusal after 354
+			// that returns to the command loop has the message executed line by line
+			c.obFollow("354 then the message is consumed", f, c.direct("reply:354"), []string{"drain:*dataReader", "call:(*Conn).handleDataLMTP"}, nil, nil) // the LMTP handler drains in its delivery goroutine and waits for it: R-lmtp-join
 		}
 	}
 	R.Rule("R-one-reader-per-data", "E2 path count", "exactly one DATA reader is created on every accepting path of DATA", 1)
